@@ -38,6 +38,14 @@ NONE = ("k", None)
 
 
 def app(op, *args):
+    # python-level double negation: `not (not x)` has the truth value of x (guards and tests only see truth values)
+    if op == "not" and len(args) == 1 and isinstance(args[0], tuple) and len(args[0]) == 3 and args[0][0] == "app" and args[0][1] == "not":
+        return args[0][2]
+    # one spelling for the negative comparisons of python: `a is not b` is `not (a is b)`, `a not in b` is `not (a in b)`
+    if op == "isnot" and len(args) == 2:
+        return app("not", ("app", "is") + tuple(args))
+    if op == "notin" and len(args) == 2:
+        return app("not", ("app", "in") + tuple(args))
     return ("app", op) + tuple(args)
 
 
